@@ -197,6 +197,10 @@ class Collocator:
             filesets[1], start=start, end=end, max_interval=max_interval,
         ))
 
+        # No files match in time, i.e. there is nothing to collocate:
+        if not matches:
+            return
+
         if processes is None:
             processes = 1
 
